@@ -210,7 +210,7 @@ func (h *harness) check(ctx *bex.Ctx, prog *vlang.Node, trivialRule func(o strin
 
 func run(ctx *bex.Ctx) {
 	h := newHarness()
-	maxA, maxB := 7, 3
+	maxA, maxB := 7, 4
 	if !ctx.Quick() {
 		maxA, maxB = 8, 5
 	}
